@@ -125,7 +125,14 @@ func runShards(bin, scratch, prop string, extraEnv []string) (*h.Partial, error)
 					total.Count("child_restarts_after_deadlock", 1)
 				} else {
 					total.Count("child_crashes", 1)
-					total.Inconc(fmt.Sprintf("shard %d case %d: child ended unexpectedly (%v): %s", s, cur, err, h.Truncate(tailOf(filepath.Join(scratch, fmt.Sprintf("shard%d.log", s))), 600)))
+					logText := h.ReadFile(filepath.Join(scratch, fmt.Sprintf("shard%d.log", s)))
+					if site := panicSite(logText); site != "" {
+						// the code under test panicked (or hit a fatal runtime error) while executing a generated program
+						total.Violation(fmt.Sprintf("%s | crash | %s", prop, site), "go-task crashed while executing a generated program: "+firstLineWith(logText, "panic:", "fatal error:"),
+							map[string]string{"crash.log": h.Truncate(logText, 20000), "case.json": fmt.Sprintf(`{"property": %q, "case": %d, "seed": %d, "tier": %q, "note": "re-run with bin/replay-e1 to see the program"}`, prop, cur, h.Seed(), h.Tier())})
+					} else {
+						total.Inconc(fmt.Sprintf("shard %d case %d: child ended unexpectedly (%v): %s", s, cur, err, h.Truncate(tailOf(filepath.Join(scratch, fmt.Sprintf("shard%d.log", s))), 600)))
+					}
 				}
 				mu.Unlock()
 				from = cur + 1
@@ -144,6 +151,38 @@ func runShards(bin, scratch, prop string, extraEnv []string) (*h.Partial, error)
 	}
 	wg.Wait()
 	return total, firstErr
+}
+
+// panicSite returns the innermost go-task (non-harness) function of a Go crash dump, or "".
+func panicSite(log string) string {
+	i := strings.Index(log, "panic:")
+	if j := strings.Index(log, "fatal error:"); j >= 0 && (i < 0 || j < i) {
+		i = j
+	}
+	if i < 0 {
+		return ""
+	}
+	for _, l := range strings.Split(log[i:], "\n") {
+		l = strings.TrimSpace(l)
+		if strings.HasPrefix(l, "github.com/go-task/task/v3") && !strings.Contains(l, "/verifh/") && !strings.Contains(l, "verifhook") {
+			if k := strings.LastIndex(l, "("); k > 0 {
+				l = l[:k]
+			}
+			return strings.TrimPrefix(l, "github.com/go-task/task/v3")
+		}
+	}
+	return "outside go-task frames"
+}
+
+func firstLineWith(text string, needles ...string) string {
+	for _, l := range strings.Split(text, "\n") {
+		for _, n := range needles {
+			if strings.Contains(l, n) {
+				return h.Truncate(strings.TrimSpace(l), 300)
+			}
+		}
+	}
+	return ""
 }
 
 func tailOf(path string) string {
